@@ -506,3 +506,41 @@ def _(c):
     # the loop is left through `break` in its first iteration, so "no iteration completed yet" is invariant.
     c.loop(0, invariant=lambda L, k: And(k == 0, Not(L.isMove)), havoc={"isMove": "bool"})
     c.split(7)
+
+
+# ------------------------------------------------------------------------------------ enable / disable (C14)
+@contract(S + "enableExclusion")
+def _(c):
+    c.pre(lambda b: {"self": mk_motion_state(b, position="opaque", lastRetraction="opaque", lastPosition="opaque", enter="opaque",
+                                             exit="opaque", pending="opaque"), "args": {"context": b.string("context")}})
+    c.modifies("self._exclusionEnabled")
+    c.ensures("C14.enabled-afterwards", lambda f: And(f.self._exclusionEnabled, f.result is None), props=("C14",))
+
+
+@contract(S + "disableExclusion")
+def _(c):
+    def pre(b):
+        st = mk_motion_state(b, lastRetraction="opaque", enter="opaque")
+        return {"self": st, "args": {"context": b.string("context")}, "ghost": {"P": mk_printer(b)}}
+    c.pre(pre)
+    c.requires("I-type", lambda f: inv_type(f.self))
+    c.requires("I-excl", lambda f: inv_excl(f.self))
+    c.requires("I-lastpos", lambda f: inv_lastpos(f.self, f.g["P"]))
+    c.requires("I-pos", lambda f: inv_pos(f.self, f.g["P"]))
+    c.modifies("self._exclusionEnabled", "self.excluding", "self.pendingCommands.*")
+
+    def post(f):
+        """A disable closes an open episode at once, with the same re-synchronisation obligations as leaving a
+        region (C03.resync on the returned commands); otherwise nothing is generated."""
+        o, n = f.old.self, f.self
+        P = f.g["P"]
+        Q, log = RP.run(P, n.position, f.result, None, None)
+        closes = And(o._exclusionEnabled, o.excluding)
+        return And(Not(n._exclusionEnabled), Not(n.excluding),
+                   If(closes, And(at_tracked(Q, n), eq(Q.e, val(n.position.E_AXIS.current)), eq(Q.fil, P.fil),
+                                  z_order_ok(P, Q, log, tracked_xyz(n)[2]), exit_structure(f, RP.items_of(f.result))),
+                      len(RP.items_of(f.result)) == 0))
+    c.ensures("C14.disable-closes-episode", post, props=("C14", "C03", "C06"))
+    c.ensures("Inv-preserved", lambda f: And(inv_type(f.self), inv_excl(f.self),
+                                             inv_pos(f.self, RP.run(f.g["P"], f.self.position, f.result, None, None)[0])),
+              props=("C14", "C01", "C03"))
